@@ -152,9 +152,12 @@ const NUM_CLASSES: [&str; 9] = ["zero", "one", "minus1", "plus1", "maxm1", "max"
 const XMLNUM_CLASSES: [&str; 11] = ["0", "1", "minus1", "plus1", "2147483647", "4294967295", "4294967296", "18446744073709551616", "-1", "", "abc"];
 const XMLREF_CLASSES: [&str; 9] = ["A0", "XFE1", "A1048577", "A", "1", "ZZZZZZZZZZ1", "A1:", "A99999999999", ""];
 const PART_CLASSES: [&str; 6] = ["trunc0", "trunc1", "trunc_q", "trunc_h", "trunc_m1", "drop"];
+/// structural faults on one record of a BIFF / BIFF12 stream, with the length field kept consistent:
+/// stray bytes at the end / before the last two payload bytes, missing bytes, duplicated / dropped record
+const REC_CLASSES: [&str; 8] = ["grow1_end", "grow5_end", "grow1_mid", "grow5_mid", "shrink1_end", "shrink2_mid", "dup", "droprec"];
 
 pub fn nclasses(kind: &str) -> usize {
-    match kind { "num" => NUM_CLASSES.len(), "xmlnum" => XMLNUM_CLASSES.len(), "xmlref" => XMLREF_CLASSES.len(), _ => PART_CLASSES.len() }
+    match kind { "num" => NUM_CLASSES.len(), "xmlnum" => XMLNUM_CLASSES.len(), "xmlref" => XMLREF_CLASSES.len(), "rec" | "rec12" => REC_CLASSES.len(), _ => PART_CLASSES.len() }
 }
 
 fn scan_xml(part: &str, b: &[u8], out: &mut Vec<Field>) {
@@ -197,6 +200,9 @@ fn scan_biff(part: &str, b: &[u8], out: &mut Vec<Field>) {
         let len = u16::from_le_bytes([b[pos + 2], b[pos + 3]]) as usize;
         out.push(Field { part: part.into(), off: pos, width: 2, kind: "num" });      // record type
         out.push(Field { part: part.into(), off: pos + 2, width: 2, kind: "num" });  // record length
+        if pos + 4 + len <= b.len() {
+            out.push(Field { part: part.into(), off: pos, width: 4 + len, kind: "rec" });
+        }
         let pl = len.min(b.len().saturating_sub(pos + 4));
         for o in (0..pl.min(14)).step_by(2) {
             if o + 2 <= pl { out.push(Field { part: part.into(), off: pos + 4 + o, width: 2, kind: "num" }); }
@@ -225,6 +231,9 @@ fn scan_xlsb(part: &str, b: &[u8], out: &mut Vec<Field>) {
             lenbytes += 1;
             len |= ((c & 0x7F) as usize) << (7 * i);
             if c & 0x80 == 0 { break; }
+        }
+        if pos + len <= b.len() && lenbytes == 1 && len < 120 {
+            out.push(Field { part: part.into(), off: start, width: pos - start + len, kind: "rec12" });
         }
         out.push(Field { part: part.into(), off: start, width: 1, kind: "num" });                 // id byte
         out.push(Field { part: part.into(), off: start + idlen, width: 1, kind: "num" });         // first length byte
@@ -305,6 +314,39 @@ fn patch(buf: &mut Vec<u8>, f: &Field, cls: usize) {
             a[..f.width].copy_from_slice(&buf[f.off..f.off + f.width]);
             let v = num_value(NUM_CLASSES[cls], u64::from_le_bytes(a), f.width);
             buf[f.off..f.off + f.width].copy_from_slice(&v.to_le_bytes()[..f.width]);
+        }
+        "rec" | "rec12" => {
+            if f.off + f.width > buf.len() { return; }
+            let hdr = if f.kind == "rec" { 4 } else { f.width - { // BIFF12: id (1-2 bytes) + 1 length byte
+                let idlen = if buf[f.off] & 0x80 != 0 { 2 } else { 1 };
+                buf[f.off + idlen] as usize } };
+            let rec: Vec<u8> = buf[f.off..f.off + f.width].to_vec();
+            let payload = rec[hdr..].to_vec();
+            let mut newp = payload.clone();
+            let mid = payload.len().saturating_sub(2);
+            let mut copies = 1;
+            match REC_CLASSES[cls] {
+                "grow1_end" => newp.push(0x01),
+                "grow5_end" => newp.extend_from_slice(&[1, 2, 3, 4, 5]),
+                "grow1_mid" => newp.insert(mid, 0x01),
+                "grow5_mid" => { for (i, x) in [1u8, 2, 3, 4, 5].iter().enumerate() { newp.insert(mid + i, *x); } }
+                "shrink1_end" => { newp.pop(); }
+                "shrink2_mid" => { if newp.len() >= 4 { newp.drain(mid - 2..mid); } }
+                "dup" => copies = 2,
+                _ => copies = 0,
+            }
+            let mut newrec = rec[..hdr].to_vec();
+            if f.kind == "rec" {
+                newrec[2..4].copy_from_slice(&(newp.len() as u16).to_le_bytes());
+            } else {
+                if newp.len() > 127 { return; }
+                let last = newrec.len() - 1;
+                newrec[last] = newp.len() as u8;
+            }
+            newrec.extend_from_slice(&newp);
+            let mut all = Vec::new();
+            for _ in 0..copies { all.extend_from_slice(&newrec); }
+            buf.splice(f.off..f.off + f.width, all);
         }
         "xmlnum" | "xmlref" => {
             if f.off + f.width > buf.len() { return; }
